@@ -79,6 +79,11 @@ type incarnation struct {
 }
 
 type timerHarness struct {
+	// opMu makes the harness's own make/cancel requests (issued by the
+	// requester and, concurrently, by firing handlers) atomic with
+	// respect to each other, so that "the previous timer with this id"
+	// is known exactly when a request is refused
+	opMu  sync.Mutex
 	mu    sync.Mutex
 	ts    *Timers
 	incs  []*incarnation
@@ -112,6 +117,8 @@ func (h *timerHarness) failLocked(f string, a ...interface{}) {
 
 // make issues an Add; inFiringOf != nil when called from a handler.
 func (h *timerHarness) make(op TOp, inFiringOf *incarnation) {
+	h.opMu.Lock()
+	defer h.opMu.Unlock()
 	h.mu.Lock()
 	h.incs = append(h.incs, nil) // reserve the incarnation number
 	n := len(h.incs)
@@ -147,6 +154,8 @@ func (h *timerHarness) make(op TOp, inFiringOf *incarnation) {
 }
 
 func (h *timerHarness) cancel(id string, inFiringOf *incarnation) {
+	h.opMu.Lock()
+	defer h.opMu.Unlock()
 	h.mu.Lock()
 	target := h.live[id]
 	h.mu.Unlock()
@@ -246,6 +255,10 @@ func (h *timerHarness) pending() (map[string]bool, error) {
 // be reported; an id whose latest timer has fired (and finished its
 // handler) or was cancelled must not be.
 func (h *timerHarness) checkPending(where string) {
+	// no request of the harness (the requester's or a handler's) is in
+	// flight while the reported set and the model are compared
+	h.opMu.Lock()
+	defer h.opMu.Unlock()
 	p, err := h.pending()
 	h.mu.Lock()
 	defer h.mu.Unlock()
